@@ -49,6 +49,7 @@ bool CPPPreprocessor::is_manifest_defined(const std::string &manifest_name) cons
 //@extract src/cppparser/cppPreprocessor.cxx CPPPreprocessor::skip_digit_separator
 //@extract src/cppparser/cppPreprocessor.cxx CPPPreprocessor::skip_c_comment
 //@extract src/cppparser/cppPreprocessor.cxx CPPPreprocessor::skip_cpp_comment
+//@extract src/cppparser/cppPreprocessor.cxx CPPPreprocessor::get_preprocessor_command
 //@extract src/cppparser/cppPreprocessor.cxx CPPPreprocessor::expand_defined_function
 std::ostream &indent(std::ostream &out, int indent_level) { return out; }
 int CPPPreprocessor::get_file_depth() const { return 0; }
@@ -138,6 +139,25 @@ void h_skip_cpp_comment() {
   int nl = -1;
   for (int k = 0; k < VU_IN_MAX; k++) if (nl < 0 && k < vin_in_len && vin_in[k] == '\n') nl = k;
   OBL(r == (nl >= 0 ? '\n' : EOF) && g_pos == (nl >= 0 ? nl + 1 : vin_in_len), "C15.skip_cpp_comment: the comment ends at the first newline (returned) or at the end of the input");
+  VU_REACHED();
+}
+
+// ---- a directive line: `#` [blanks] command [blanks] ...: for any bytes the command is the longest run of identifier
+// characters and the scanner stops at the first character behind the blanks that follow it (a newline is not a blank)
+static bool is_idc(int c) { return (c >= '0' && c <= '9') || (c >= 'a' && c <= 'z') || (c >= 'A' && c <= 'Z') || c == '_'; }
+static bool is_blank_not_nl(int c) { return c == ' ' || c == '\t' || c == '\r' || c == '\v' || c == '\f'; }
+void h_get_preprocessor_command() {
+  make_input(); __CPROVER_assume(vin_in_len >= 1);
+  CPPPreprocessor *pp = make_pp();
+  g_pos = 1;
+  std::string cmd;
+  int r = pp->get_preprocessor_command(vin_in[0], cmd);
+  __CPROVER_assume(!cmd._trunc);
+  int k = 0; for (int i = 0; i < VU_IN_MAX; i++) if (k == i && i < vin_in_len && is_idc(vin_in[i])) k = i + 1;        // length of the identifier run
+  int e = k; for (int i = 0; i < VU_IN_MAX; i++) if (i >= k && e == i && i < vin_in_len && is_blank_not_nl(vin_in[i])) e = i + 1;   // behind the blanks
+  bool same = cmd._n == (size_t)k; for (int i = 0; i < VU_IN_MAX; i++) if (i < k && cmd._d[i] != (char)vin_in[i]) same = false;
+  OBL(same, "C09.get_preprocessor_command: the directive name is the run of identifier characters that follows the #");
+  OBL(r == (e < vin_in_len ? (int)vin_in[e] : EOF) && g_pos == (e < vin_in_len ? e + 1 : vin_in_len), "C09.get_preprocessor_command: blanks behind the name are skipped, a newline is not");
   VU_REACHED();
 }
 
